@@ -333,7 +333,9 @@ fn c14_step(step: &Value, probe: &str, tainted: &mut bool) -> Value {
         return r;
     }
     // I2 isolation: the very next healthy computation must be served and be right
-    if !probe.is_empty() {
+    // (inside an editor session only the last step is followed by the probe, so that
+    // consecutive recomputes of related models really are consecutive)
+    if !probe.is_empty() && step["probe"] != false {
         let pv = probe_value(probe);
         let reference = PROBE_REFS.with(|p| p.borrow().get(probe).cloned());
         match (pv, reference) {
